@@ -93,7 +93,7 @@ class C10(Check):
         if e.name == 'rec' and r < 0.3:
             return ['reconstruct', text, start]          # the TreeMatcher / Reconstructor caches, also under threads
         if r < 0.37:
-            return ['parse', text, start]
+            return ['parse', text, start] + (['mutate'] if rng.random() < 0.35 else [])
         if r < 0.40 and e.input_kind == 'str' and not stateful:
             return ['parse_as', text, start, rng.choice(['slice', 'str'])]
         if r < 0.47:
@@ -197,6 +197,8 @@ class C10(Check):
         expected value is a function of (config, operation) only, so a replay in another process computes the same value even when
         the code under test leaks state between calls)"""
         op = O.eager_form(op)
+        if op[0] == 'parse' and len(op) > 3:
+            op = op[:3]                      # (what the caller does to the result afterwards is not part of the call)
         key = (cfg, jhash(op))
         v = self.expected.get(key)
         if v is None:
@@ -330,6 +332,13 @@ class C10(Check):
                     out.count('probe:earlier-result-re-examined')
                     if _canon(r, True) != c0:
                         out.violation = Violation('result-mutated-by-later-call', config=cfg, task=ti, op=op, was=c0, now=_canon(r, True))
+                        break
+                for ex, c0, op in stash.get('raw_exc', ()):
+                    out.count('probe:earlier-exception-re-examined')
+                    from sim.canon import canon_error as _ce
+                    c1 = _ce(ex, with_accepts=False)
+                    if c1 != c0:
+                        out.violation = Violation('result-mutated-by-later-call', config=cfg, task=ti, op=op, was=c0, now=c1, what='exception of an earlier failed call')
                         break
                 if out.violation:
                     break
